@@ -71,16 +71,18 @@ where
 /// quantiles to probe: all of them for P <= 12; otherwise both ends, every row boundary +-1, mid
 /// points and a stride
 pub fn quantiles<S>(rows: &[Row<S>], prec: usize) -> Vec<u64> {
-    let total = 1u64 << prec;
+    // (u128 arithmetic: at PRECISION 64 neither 2^P nor cumulative + probability fits a u64)
+    let total: u128 = 1u128 << prec;
     if prec <= 12 {
-        return (0..total).collect();
+        return (0..total as u64).collect();
     }
-    let mut q = vec![0, total - 1, total / 2, total / 3, 1];
+    let mut q: Vec<u128> = vec![0, total - 1, total / 2, total / 3, 1];
     for (_, c, p) in rows {
-        q.push(*c);
+        let (c, p) = (*c as u128, *p as u128);
+        q.push(c);
         q.push(c + p - 1);
         q.push(c + p / 2);
-        if *c > 0 {
+        if c > 0 {
             q.push(c - 1);
         }
         if c + p < total {
@@ -96,7 +98,7 @@ pub fn quantiles<S>(rows: &[Row<S>], prec: usize) -> Vec<u64> {
     q.retain(|x| *x < total);
     q.sort_unstable();
     q.dedup();
-    q
+    q.into_iter().map(|x| x as u64).collect()
 }
 
 /// `rows` must be sorted by left cumulative with consecutive intervals (as `check_tiling` ensures)
